@@ -190,13 +190,9 @@ def check(ctx):
     ok = len(ids) == 2 and len(split) == 1
     ctx.ob("R09.6", f"{k}|two-ids-one-split", ok, site, f"{len(ids)} ids taken, {len(split)} split call")
     if ok:
-        stores = []     # (variant, index expr, payload expr)
-        for b in sorted(body.reachable):
-            for st in body.stmts(b):
-                if st[0] == "A" and st[1]["p"] and any(e != "*" and e[0] == "i" for e in st[1]["p"]) and st[2][0] in ("Use",):
-                    idx_l = [e[1] for e in st[1]["p"] if e != "*" and e[0] == "i"][0]
-                    val = dg.expr(st[2][1])
-                    stores.append((b, strip_casts(dg.local(idx_l)), val))
+        stores = []     # (block, index expr, payload expr)
+        for (b_, cont_, idx_, rv_) in util.element_stores(body, dg):
+            if rv_[0] == "Use": stores.append((b_, idx_, dg.expr(rv_[1])))
         news = [(b, c) for (b, c) in body.calls if (c.get("f") or "").endswith("MutinyStream::new")]
         pair = {}
         for (b, idx, val) in stores:
